@@ -35,7 +35,7 @@ let look fn a b =
   | Some r -> r
   | None -> (if not (List.exists (fun (f, x, y) -> f = fn && Int64.bits_of_float x = Int64.bits_of_float a
                                                     && Int64.bits_of_float y = Int64.bits_of_float b) !needs)
-             then needs := (fn, a, b) :: !needs); 0.0
+             then needs := (fn, a, b) :: !needs); Float.nan
 let l1 fn = fun (a : Float64.t) -> Float64.of_float (look fn (Float64.to_float a) 0.0)
 let l2 fn = fun (a : Float64.t) (b : Float64.t) -> Float64.of_float (look fn (Float64.to_float a) (Float64.to_float b))
 let read_tbl t =
